@@ -45,6 +45,17 @@ LOCAL_EXCEPTIONS = {
 }
 
 
+# reads of a `for` target after its loop ended (the value left over from the last iteration): function|name -> number
+# of such reads confirmed by reading the code
+LEAK_ALLOWED = {
+    "Channel.Local|cls_field": (2, "search loop with break: the field named 'addressing'"),
+    "Channel.Global|cls_field": (2, "search loop with break: the field named 'addressing'"),
+    "ChannelSamples.modulate|block": (2, "deliberately the last EOM block: `block.tf is None` <=> the sequence ends in EOM mode"),
+    "Sequence._set_slm_mask_dmm|key": (1, "search loop with break: the DMM name that was just declared"),
+    "switch_device|call": (2, "not a leak: the later reads are inside a comprehension with its own `call`"),
+}
+
+
 def anchor_modules(E: Engine, pid: str) -> set:
     """Module names of the files the property is anchored in (properties.jsonl)."""
     here = os.path.dirname(os.path.dirname(os.path.abspath(__file__)))
@@ -113,6 +124,28 @@ def check(E: Engine, rep: Report, pid: str, rule: str = "UNUSED", extra_modules:
                 rep.excepted(rule, key + "|local-is-read", LOCAL_EXCEPTIONS[key], E.where(f, st))
             else:
                 rep.violation(rule, key + "|local-is-read", f"{f.short} computes `{nm}` (`{ast.unparse(st)[:70]}`) and never reads it: the value was meant to reach a later statement (dropped argument / wrong variable)", E.where(f, st))
+    # LEAK: a loop variable read after its loop holds whatever the last iteration left in it
+    n_leak = 0
+    for f in E.P.all_functions():
+        if f.kind == "overload" or f.module.name not in mods:
+            continue
+        counts: dict = {}
+        first: dict = {}
+        for lp in [x for x in ast.walk(f.node) if isinstance(x, ast.For)]:
+            for nm in {y.id for y in ast.walk(lp.target) if isinstance(y, ast.Name)}:
+                stores = [y.lineno for y in ast.walk(f.node) if isinstance(y, ast.Name) and y.id == nm and isinstance(y.ctx, ast.Store)]
+                for y in ast.walk(f.node):
+                    if isinstance(y, ast.Name) and y.id == nm and isinstance(y.ctx, ast.Load) and y.lineno > lp.end_lineno and not any(lp.end_lineno < s_ <= y.lineno for s_ in stores):
+                        counts[nm] = counts.get(nm, 0) + 1
+                        first.setdefault(nm, y)
+        for nm, c_ in counts.items():
+            n_leak += 1
+            key = f"{f.short}|{nm}"
+            allowed = LEAK_ALLOWED.get(key)
+            if allowed is not None and c_ <= allowed[0]:
+                rep.excepted(rule, key + "|loop-variable-read-after-loop", allowed[1], E.where(f, first[nm]))
+            else:
+                rep.violation(rule, key + "|loop-variable-read-after-loop", f"{f.short} reads the loop variable `{nm}` after its loop ({c_} read(s)" + (f", {allowed[0]} confirmed" if allowed else "") + "): it then holds the element of the LAST iteration, which is rarely the one meant (first element / a specific one)", E.where(f, first[nm]))
     if n_par < 5:
         rep.error(f"UNUSED: only {n_par} parameters inspected for {pid} (anchor modules not found?)")
-    return {"parameters_inspected": n_par, "locals_inspected": n_loc}
+    return {"parameters_inspected": n_par, "locals_inspected": n_loc, "post_loop_reads": n_leak}
